@@ -1,0 +1,52 @@
+//go:build verif
+
+package set
+
+// Contracts for govc on the generic set (C03/C06: a set holds no two equivalent members; membership,
+// insertion and removal act on the bucket of the value's hash). Verified for the instantiation with
+// interface{} elements, which is what cty values use. The membership rules are an interface: what its
+// methods answer is the uninterpreted pair r_hash / r_equiv of the rules value and the arguments
+// (assumed: they are functions of their arguments and have no effects). Comment-only file.
+//
+//@ func (set.Rules<Any>).Hash
+//@   trusted
+//@   ensures (= result (r_hash recv arg0))
+//
+//@ func (set.Rules<Any>).Equivalent
+//@   trusted
+//@   ensures (= result (r_equiv recv arg0 arg1))
+//
+//@ func (set.Set[interface{}]).Has[interface{}]
+//@   tags C03
+//@   let R (set.Set<Any>.rules s)
+//@   let M ($at<MapC<Int~Slice>> (set.Set<Any>.vals s))
+//@   let h (r_hash R val)
+//@   let b (select (MapC<Int~Slice>.val M) h)
+//@   requires (not (= R nil.Any))
+//@   requires (=> (select (MapC<Int~Slice>.dom M) h) (slice.ok b))
+//@   ensures[C03] member: (= result (and (select (MapC<Int~Slice>.dom M) h) (exists ((j Int)) (! (and (trig j) (<= 0 j) (< j (Slice.len b)) (r_equiv R val (select ($at<Arr<Any>> (Slice.ptr b)) (+ (Slice.off b) j)))) :pattern ((trig j))))))
+//@   loop 1 invariant (forall ((j Int)) (! (=> (and (trig j) (<= 0 j) (< j $i)) (not (r_equiv R val (select ($at<Arr<Any>> (Slice.ptr b)) (+ (Slice.off b) j))))) :pattern ((trig j))))
+//
+// Add: nothing changes when an equivalent member is already in the bucket of the value's hash; otherwise
+// that bucket is the old one with the value appended (a new bucket when there was none) and every other
+// bucket is untouched. Only the set's own bucket map is written (C20).
+//@ func (set.Set[interface{}]).Add[interface{}]
+//@   tags C03 C06 C20
+//@   let R (set.Set<Any>.rules s)
+//@   let mp (set.Set<Any>.vals s)
+//@   let M ($at<MapC<Int~Slice>> mp)
+//@   let M0 (old ($at<MapC<Int~Slice>> mp))
+//@   let h (r_hash R val)
+//@   let b0 (select (MapC<Int~Slice>.val M0) h)
+//@   let b (select (MapC<Int~Slice>.val M) h)
+//@   let had (select (MapC<Int~Slice>.dom M0) h)
+//@   let n0 (ite had (Slice.len b0) 0)
+//@   let present (and had (exists ((j Int)) (! (and (trig j) (<= 0 j) (< j (Slice.len b0)) (r_equiv R val (select (old ($at<Arr<Any>> (Slice.ptr b0))) (+ (Slice.off b0) j)))) :pattern ((trig j)))))
+//@   requires (and (not (= R nil.Any)) (not (= mp 0)) (MapC<Int~Slice>.ok M))
+//@   requires (=> had (slice.ok b0))
+//@   writes MapC<Int~Slice> mp
+//@   ensures[C03] idempotent: (=> present (= M M0))
+//@   ensures[C03] others: (forall ((k Int)) (! (=> (not (= k h)) (and (= (select (MapC<Int~Slice>.dom M) k) (select (MapC<Int~Slice>.dom M0) k)) (= (select (MapC<Int~Slice>.val M) k) (select (MapC<Int~Slice>.val M0) k)))) :pattern ((select (MapC<Int~Slice>.val M) k)) :pattern ((select (MapC<Int~Slice>.dom M) k))))
+//@   ensures[C03] appended: (=> (not present) (and (select (MapC<Int~Slice>.dom M) h) (slice.ok b) (= (Slice.len b) (+ n0 1)) (= (select ($at<Arr<Any>> (Slice.ptr b)) (+ (Slice.off b) n0)) val) (forall ((j Int)) (! (=> (and (trig j) (<= 0 j) (< j n0)) (= (select ($at<Arr<Any>> (Slice.ptr b)) (+ (Slice.off b) j)) (select (old ($at<Arr<Any>> (Slice.ptr b0))) (+ (Slice.off b0) j)))) :pattern ((trig j))))))
+//@   ensures[C06] nodup: (=> (not present) (forall ((j Int)) (! (=> (and (trig j) (<= 0 j) (< j n0)) (not (r_equiv R val (select ($at<Arr<Any>> (Slice.ptr b)) (+ (Slice.off b) j))))) :pattern ((trig j)))))
+//@   loop 1 invariant (forall ((j Int)) (! (=> (and (trig j) (<= 0 j) (< j $i)) (not (r_equiv R val (select ($at<Arr<Any>> (Slice.ptr bucket)) (+ (Slice.off bucket) j))))) :pattern ((trig j))))
